@@ -692,7 +692,7 @@ class Writer(object):
     def grid(self, m):
         _, ver, meta, cols, rows = m
         lines = []
-        head = 'ver:"%s"' % ver
+        head = 'ver:' + Writer(Plan()).string(ver)      # (the label is a ZINC string: quotes and backslashes are escaped)
         for kk, v in meta:
             head += ' ' + self.tag(kk, v, ver)
         lines.append(head)
